@@ -58,8 +58,12 @@ package main
 // already been allocated a replica in this class is skipped entirely - it
 // counts neither as wanted nor (again) as protected; `want` is only ever set,
 // never cleared, and nothing else of a slot changes.
-//@ func Balancer.balanceBlock$2 property C05 safety -bounds
+//@ func Balancer.balanceBlock$2 property C05,C12 safety -bounds
 //@   requires 0 <= i && i < len(slots)
+//@   # a server counts as used (and is passed over by the first, one-replica-per-
+//@   # server pass) only from the moment one of its mounts is allocated a replica
+//@   requires wantMnt != nil
+//@   ensures forall s *KeepService :: wantSrv[s] && !old(wantSrv[s]) ==> s == slots[i].mnt.KeepService && wantMnt[slots[i].mnt] && !old(wantMnt[slots[i].mnt])
 //@   ensures old(wantMnt[slots[i].mnt]) || old(wantDev[slots[i].mnt.DeviceID]) ==> result == false && replProt == old(replProt) && replWant == old(replWant)
 //@   ensures old(slots[i].want) ==> slots[i].want
 //@   ensures slots[i].mnt == old(slots[i].mnt) && slots[i].repl == old(slots[i].repl)
